@@ -53,7 +53,8 @@ TRAITS = [
 
 
 def module_program(c, trait_text):
-    inv = trait_text + ''.join(gp.block_text(b, c.trait_name) for b in c.blocks)
+    # some invocations name the trait through a path: relative (`self::K`) or absolute (`::me::inv::K`)
+    inv = trait_text + ''.join(gp.block_text(b, getattr(c, 'trait_prefix', '') + c.trait_name) for b in c.blocks)
     src = gp.PRELUDE + gp.world_text(c.world) + 'pub mod inv {\n    use super::*;\n    disjoint_impls! {\n%s    }\n}\nfn main() {}\n' % inv
     return src, inv
 
@@ -93,6 +94,7 @@ def run(tier, seed, replay=None):
     for i in range(n):
         c = gp.gen_case(rng, ['flat', 'multi', 'nested', 'unsized'][i % 4])
         # supertraits/where-clauses of the richer trait texts need world support: Tr0 + Clone for atoms
+        c.trait_prefix = ['', '', 'self::', '', '::me::inv::', ''][i % 6]
         cases.append((c, [TRAITS[0], TRAITS[3], TRAITS[2], TRAITS[0], TRAITS[3]][i % 5]))
     # (1) expanded text
     for c, ttext in cases:
@@ -100,7 +102,14 @@ def run(tier, seed, replay=None):
         r = rc.compile_run(prog, expanded=True)
         stats['expansions'] += 1
         h = cm.run_hook(['groups\t' + inv.replace('\n', ' ')], exe_hook)[0]
+        if not r['ok'] and h.startswith('(Blocks') and any(code in e for e in r['errors'] for code in ('E0405', 'E0412', 'E0425', 'E0432', 'E0433')):
+            # a name of the expansion does not resolve where it is written (e.g. the helper trait named through the
+            # user's path to the main trait): a scope defect whatever else the program contains
+            violations.append(dict(kind='property', request=inv, program=prog, errors=r['errors'][:4],
+                                   oracle='a name in the expansion does not resolve in the scope it is emitted into: %s' % r['errors'][:2]))
+            continue
         if not r['ok'] or not h.startswith('(Blocks'):
+            stats['skipped'] = stats.get('skipped', 0) + 1
             continue
         body = extract_module(r['stdout'], 'inv')
         if body is None:
